@@ -43,6 +43,20 @@ type c18PoolEvt struct {
 
 func c18PoolInterp(t *testing.T, c c18Case) kit.Verdict {
 	v := c18NewV()
+	if c.N <= 0 {
+		// a pool of nothing: what the constructor does is UNSPECIFIED (the
+		// unchanged tree refuses with a panic); run for hangs only. The one thing
+		// the statement does determine: no resource may come alive.
+		creates := 0
+		pan, _ := c18Try(func() {
+			_ = syncx.NewPool(c.N, func() interface{} { creates++; return creates }, func(interface{}) { creates-- })
+		})
+		v.class(fmt.Sprintf("limit<=0:constructor-panicked=%v", pan))
+		if creates > 0 {
+			v.failf("pool(limit %d): the constructor left %d live resources", c.N, creates)
+		}
+		return v.done(kit.BubbleResult{})
+	}
 	c18CaseClasses(v, c)
 	v.class(fmt.Sprintf("limit=%d", c.N))
 	if _, d := c18Settings(c, 0); d == 0 {
@@ -350,6 +364,9 @@ func c18PoolInterp(t *testing.T, c c18Case) kit.Verdict {
 }
 
 func c18PoolGen(rt *rapid.T) c18Case {
+	if rapid.IntRange(0, 39).Draw(rt, "nothingPool") == 23 {
+		return c18Case{N: rapid.SampledFrom([]int{0, -1, -1000}).Draw(rt, "limit<=0"), Gs: [][]c18Op{}}
+	}
 	c := c18Case{
 		N: rapid.SampledFrom([]int{1, 1, 2, 2, 3}).Draw(rt, "limit"),
 		P: rapid.SampledFrom([]int{0, 1, 2, 3, 3, 4}).Draw(rt, "maxage"),
